@@ -55,6 +55,9 @@ CHECKS = {
  "C19": dict(cat="model_checking", tech="TLA+ fixed-point specification of the book graph equations (BookGraph.tla) + TLC validation of graph dumps of the real BookBuild::Book",
    text="BookGraph.tla transcribes the defining equations of bookbuild.hpp (mutually consistent links, shortest depth, negamax with INVALID/IGNORE/mate negation and covered dropout moves, expansion costs for both book players, path errors over all parents). Seeded operation sequences (extend under random nodes incl. transpositions with extra parents and pre-existing children, search results incl. mate/0/IGNORE/INVALID, pending marks, PGN import, save/load) are applied to the real Book; after every operation (every k-th for books of hundreds of nodes) the whole graph is dumped and TLC evaluates FixedPoint on it, and requires a reloaded book to equal the saved graph.",
    note="Trusted: TLC, BookGraph.tla, harness/h_book.cpp (reads nodes through public getters and the friend class name BookBuildTest). One genuine defect (stale path error) found and fixed."),
+ "C16": dict(cat="model_checking", tech="TLA+ rule book (Chess.tla) + proof-game trace specification (Tr_Proof.tla) validated by TLC: reachability witnesses and printed proof games are replayed in the specification, distance bounds compared with the witness's own continuation",
+   text="Seeded random legal games from the initial position (1..150 plies, >= 26 men, castling and double pushes preferred now and then) are positions reachable by construction; TLC re-plays each generating game in Chess.tla (ground truth), then checks the verdict of the real 'texelutil proofgame -f -o' pipeline (static rules, distance heuristic, proof kernel, extended kernel, A* search) on the final position: never 'illegal', and every printed proof game is a legal game from InitPos ending in the goal (board, side, castling, FIDE ep). ProofGame::distLowerBound(prefix position -> final or later prefix position) must not exceed the number of plies the game itself needs (also for games trading down to 8 men).",
+   note="Trusted: TLC, Chess.tla/Tr_Proof.tla, harness/h_proof.cpp, the repository's SAN parser for reading printed proof games. The per-stage kernel replay of DESIGN.md is not implemented: kernel stages are observed through the filter's verdicts only. The filter is time-boxed in the quick tier."),
  "C18": dict(cat="model_checking", tech="TLA+ abstract opening-book specification over the rule book (Book.tla) + TLC validation of probe traces of the real Book incl. damaged polyglot files; sanitizer build observes the crash clause",
    text="Book.tla states the contract of a probe (legal move or none; for a well-formed book only stored positive-weight moves and, over enough probes, each of them). Abstract books with duplicate keys, zero weights and castling moves are written as polyglot files and in damaged variants (truncated at arbitrary byte lengths, corrupted bytes, unsorted, missing, pure garbage); 400 probes per stored position of valid books, probes of absent positions and of the built-in book along its own lines are validated by TLC against Legal(pos) and the stored bags. The same driver runs in the ASan+UBSan build.",
    note="Trusted: TLC, Chess.tla/Book.tla, harness/h_polybook.cpp, the repository's own polyglot encoder for producing files."),
